@@ -15,6 +15,7 @@ import (
 
 	vh "google.golang.org/protobuf/internal/zz_verif_vh"
 	"google.golang.org/protobuf/proto"
+	"google.golang.org/protobuf/reflect/protodesc"
 	"google.golang.org/protobuf/reflect/protoreflect"
 	"google.golang.org/protobuf/reflect/protoregistry"
 	"google.golang.org/protobuf/types/dynamicpb"
@@ -114,8 +115,60 @@ func roots(c *C) []*Root {
 			r.Exts = append(r.Exts, xs...)
 		}
 		out = append(out, r)
+		if protodescProps[c.Prop] {
+			if r2 := protodescRoot(c, n, mt.Descriptor()); r2 != nil {
+				out = append(out, r2)
+			}
+		}
 	}
 	return out
+}
+
+// For the streams below every root type is also exercised as a "random-schema" style message: dynamicpb over a
+// descriptor REBUILT by protodesc.NewFile from the FileDescriptorProto of the linked file (feature resolution,
+// presence, packedness, … computed by protodesc instead of filedesc).
+var protodescProps = map[string]bool{"C03": true, "C10": true, "C11": true, "C12": true, "C15": true, "C28": true, "C13": true, "C04": true}
+
+var protodescFiles = map[string]protoreflect.FileDescriptor{}
+
+func protodescRoot(c *C, name string, md protoreflect.MessageDescriptor) *Root {
+	path := md.ParentFile().Path()
+	fd, ok := protodescFiles[path]
+	if !ok {
+		var err error
+		fd, err = protodesc.NewFile(protodesc.ToFileDescriptorProto(md.ParentFile()), protoregistry.GlobalFiles)
+		if err != nil {
+			c.R.Notes = append(c.R.Notes, "protodesc rebuild of "+path+" failed: "+err.Error())
+			fd = nil
+		}
+		protodescFiles[path] = fd
+	}
+	if fd == nil {
+		return nil
+	}
+	var find func(ms protoreflect.MessageDescriptors) protoreflect.MessageDescriptor
+	find = func(ms protoreflect.MessageDescriptors) protoreflect.MessageDescriptor {
+		for i := 0; i < ms.Len(); i++ {
+			if ms.Get(i).FullName() == md.FullName() {
+				return ms.Get(i)
+			}
+			if m := find(ms.Get(i).Messages()); m != nil {
+				return m
+			}
+		}
+		return nil
+	}
+	md2 := find(fd.Messages())
+	if md2 == nil {
+		return nil
+	}
+	pt := dynamicpb.NewMessageType(md2)
+	r := &Root{Name: name + "@protodesc", MT: pt, DT: pt}
+	r.Flat = Flatten(md2, protoregistry.GlobalTypes)
+	for _, xs := range r.Flat.Exts {
+		r.Exts = append(r.Exts, xs...)
+	}
+	return r
 }
 
 func errClass(err error) string {
@@ -252,9 +305,10 @@ func roundTrip(c *C, r *Root, m protoreflect.Message, dyn bool) {
 // ---------- C04: size ----------
 
 func runSize(c *C) {
-	c.R.Rule = "random messages as in C03; Size vs len(Marshal) under {default, Deterministic} options and MarshalAppend with random prefixes/capacities; bodies at varint-length boundaries (127/128/16383/16384 bytes); plus mutate/Size/Marshal histories on nested messages (size changes of exactly one byte after a previous Size). Non-trivial = non-empty encoding; distinct by bytes."
+	c.R.Rule = "random messages as in C03; Size vs len(Marshal) under {default, Deterministic} options and MarshalAppend with random prefixes/capacities; bodies at varint-length boundaries (127/128/16383/16384 bytes); plus mutate/Size/Marshal histories on nested messages (size changes of exactly one byte after a previous Size); message_set_wire_format types in the default build (items as unknown fields, top level and nested, generated and dynamicpb). Non-trivial = non-empty encoding; distinct by bytes."
 	rs := roots(c)
 	per := c.N(40, 1500)
+	msetPlainCases(c)
 	for _, r := range rs {
 		r.Flat.Send(c)
 		for i := 0; i < per && !c.Failed(); i++ {
